@@ -86,6 +86,13 @@ fn main() {
         }
         // C18: key builders
         "keys" => keys::keys_trace(&mut out, &mut rng, ops),
+        // C17: the histogram type behind life_expectancy_seconds(), through its public API
+        "hist" => {
+            let lives = arg_u64(&args, "--lives", 30) as usize;
+            for _ in 0..lives {
+                hist::hist_trace(&mut out, &mut rng, ops);
+            }
+        }
         // C19: sync vs async differential
         "flavour" => {
             let scripts = arg_u64(&args, "--scripts", 12) as usize;
